@@ -138,11 +138,11 @@ def second_pass(p, cfg):
 
 
 def outside_proved_grammar(desc):
-    """the class excluded by the hypothesis `Good` of C10_adapt_idem: a Union member that contains Any, a Set or a Literal
-    with a non-string member; returns the finding id of the first class present"""
+    """the class excluded by the hypothesis `good` of C10_adapt_idem: a Union member that contains Any, a Set, a
+    Dict[int, _] or a Literal with a non-string member; returns the finding id of the first class present"""
     if in_union_member(desc, lit_nonstr):
         return F_LIT
-    if in_union_member(desc, lambda x: isinstance(x, dict) and "s" in x):
+    if in_union_member(desc, lambda x: isinstance(x, dict) and ("s" in x or ("d" in x and x["d"][0] == "int"))):
         return F_SETCONV
     if in_union_member(desc, lambda x: x == "any"):
         return F_ANYUNION
